@@ -1,9 +1,11 @@
 // helper is the program the generated scripts of the tsbatch runner (C04, C17) execute.
 //
-//	helper sleep                      block until a signal with default disposition arrives
+//	helper sleep [<obsdir>]           (write pid, cwd and environment to <obsdir>/bgenv-<pid>.json, then) block
+//	                                  until a signal with default disposition arrives
 //	helper exit <code>                exit at once with that status
 //	helper sleepmk <dir> <obsdir>     trap SIGINT, announce readiness in <obsdir>/ready-<pid>, and on the
-//	                                  interrupt create <dir>/late/f before exiting with status 1
+//	                                  interrupt shut down slowly: 150 ms later create <dir>/late/f and exit
+//	                                  with status 1
 //	helper probe <out.json>           write pid, cwd and environment to out.json
 //	helper deadline <mode> <ms> <log> log "start <pid> <unixnano>", then
 //	    block        sleep forever, signals have their default effect
@@ -11,6 +13,8 @@
 //	    trapexit0    the same, but the exit status is 0 (a graceful shutdown on the interrupt)
 //	    trapexitN    the same with the exit status N (1..255)
 //	    ignore       on SIGQUIT / SIGINT log the time and carry on (only SIGKILL ends it)
+//	    quitproof    log SIGQUIT and carry on; SIGINT has its default effect (the process dies of it)
+//	    trapint      log SIGQUIT and carry on; on SIGINT log it and exit 0 after <ms>
 //	    exitat       exit 0 after <ms>
 //	    exitabs      exit 0 at the absolute time <ms> (unix nanoseconds)
 //
@@ -38,6 +42,20 @@ func logLine(path, format string, a ...any) {
 	f.Close()
 }
 
+// writeEnv records pid, working directory (as the kernel has it) and environment.
+func writeEnv(path string) error {
+	cwd, err := os.Readlink("/proc/self/cwd")
+	if err != nil {
+		cwd, _ = os.Getwd()
+	}
+	b, _ := json.Marshal(map[string]any{"pid": os.Getpid(), "cwd": cwd, "env": os.Environ()})
+	tmp := path + ".tmp"
+	if err := os.WriteFile(tmp, b, 0o666); err != nil {
+		return err
+	}
+	return os.Rename(tmp, path)
+}
+
 func main() {
 	if len(os.Args) < 2 {
 		os.Exit(64)
@@ -50,14 +68,19 @@ func main() {
 	}
 	switch os.Args[1] {
 	case "sleep":
+		if len(os.Args) > 2 {
+			writeEnv(fmt.Sprintf("%s/bgenv-%d.json", os.Args[2], os.Getpid()))
+		}
 		for {
 			time.Sleep(time.Hour)
 		}
 	case "sleepmk":
 		c := make(chan os.Signal, 2)
 		signal.Notify(c, os.Interrupt)
+		writeEnv(fmt.Sprintf("%s/bgenv-%d.json", os.Args[3], os.Getpid()))
 		os.WriteFile(fmt.Sprintf("%s/ready-%d", os.Args[3], os.Getpid()), []byte("ready"), 0o666)
 		<-c
+		time.Sleep(150 * time.Millisecond)
 		os.MkdirAll(os.Args[2]+"/late", 0o777)
 		os.WriteFile(os.Args[2]+"/late/f", []byte("written while shutting down\n"), 0o666)
 		os.Exit(1)
@@ -65,9 +88,7 @@ func main() {
 		code, _ := strconv.Atoi(os.Args[2])
 		os.Exit(code)
 	case "probe":
-		cwd, _ := os.Getwd()
-		b, _ := json.Marshal(map[string]any{"pid": os.Getpid(), "cwd": cwd, "env": os.Environ()})
-		if err := os.WriteFile(os.Args[2], b, 0o666); err != nil {
+		if err := writeEnv(os.Args[2]); err != nil {
 			fmt.Fprintln(os.Stderr, err)
 			os.Exit(65)
 		}
@@ -111,6 +132,22 @@ func main() {
 					name = "int"
 				}
 				logLine(log, "%s %d", name, time.Now().UnixNano())
+			}
+		case "quitproof", "trapint":
+			c := make(chan os.Signal, 8)
+			if mode == "trapint" {
+				signal.Notify(c, syscall.SIGQUIT, syscall.SIGINT)
+			} else {
+				signal.Notify(c, syscall.SIGQUIT)
+			}
+			logLine(log, "ready %d", time.Now().UnixNano())
+			for s := range c {
+				if s == syscall.SIGINT {
+					logLine(log, "int %d", time.Now().UnixNano())
+					time.Sleep(time.Duration(ms) * time.Millisecond)
+					os.Exit(0)
+				}
+				logLine(log, "quit %d", time.Now().UnixNano())
 			}
 		case "exitabs":
 			at, _ := strconv.ParseInt(os.Args[3], 10, 64)
